@@ -208,7 +208,8 @@ def build(cfg) -> Built:
     c0 = ufl.Constant(mesh)
     cv = ufl.VectorConstant(mesh) if hasattr(ufl, "VectorConstant") else ufl.Constant(mesh, shape=(gdim,))
     cT = ufl.Constant(mesh, shape=(gdim, gdim))
-    B.constants = {"c0": c0, "cv": cv, "cT": cT}
+    cR = ufl.Constant(mesh, shape=(gdim + 1, gdim))  # non-square: row-major flattening uses the LAST extent as stride
+    B.constants = {"c0": c0, "cv": cv, "cT": cT, "cR": cR}
     x = ufl.SpatialCoordinate(mesh)
 
     restr = cfg.get("restr", "++") if itype == "dS" else None
@@ -407,7 +408,7 @@ def build(cfg) -> Built:
 FACTORS = (
     "one", "f", "fg", "c0", "cT", "xpoly", "sin", "exp", "sqrt", "abs", "sq", "pow", "rational", "cond", "condlogic", "maxmin",
     "erf", "atan2", "bessel", "gradf", "cellvol", "diam", "circum", "facetarea", "minmaxedge", "normal", "quadel", "realel",
-    "tanh", "acos", "lnpow", "cv",
+    "tanh", "acos", "lnpow", "cv", "cR",
 )
 
 
@@ -427,6 +428,11 @@ def factor_expr(name, B, mesh, cell, gdim, tdim, itype, sf, f, g, c0, cv, cT, x,
         return ufl.inner(cv, cv) + R(f)
     if name == "cT":
         return ufl.inner(cT, ufl.Identity(gdim)) + cT[0, gdim - 1] * R(f)
+    if name == "cR":
+        K3 = ufl.Constant(mesh, shape=(2, gdim, gdim + 1))
+        B.constants["cK3"] = K3
+        cR = B.constants["cR"]
+        return cR[gdim, 0] * R(f) + cR[1, gdim - 1] + cR[gdim, gdim - 1] * K3[1, gdim - 1, gdim] + K3[0, 0, gdim] * K3[1, 0, 1]
     if name == "xpoly":
         return 1.0 + R(x[0]) * R(x[gdim - 1]) + R(x[0]) ** 2
     if name == "sin":
